@@ -1612,9 +1612,17 @@ class DataFieldRecordArray(
                     raise KeyError(
                         f'The required field "{old_fname}" does not exist!')
 
-        for (old_fname, new_fname) in conversions.items():
-            if old_fname in self.field_name_list:
-                self._data_fields[new_fname] = self._data_fields.pop(old_fname)
+        # Take out all to-be-renamed fields before any of them gets inserted
+        # under its new name. Otherwise a new name that equals the old name of
+        # another to-be-renamed field (e.g. when swapping two names) would
+        # overwrite the data of that field.
+        renamed_fields = [
+            (new_fname, self._data_fields.pop(old_fname))
+            for (old_fname, new_fname) in conversions.items()
+            if old_fname in self.field_name_list
+        ]
+        for (new_fname, field_arr) in renamed_fields:
+            self._data_fields[new_fname] = field_arr
 
         self._field_name_list = list(self._data_fields.keys())
 
